@@ -66,3 +66,17 @@ CONT_RULE = ("scenario i = GenCont(splitmix64(VERIF_SEED,i)): one of {map, slice
 _p("C20", quick=40, thorough=900, rule=CONT_RULE, quick_runs=40000,
    real=["types/map.go, types/slice.go, types/set.go, types/events.go, utils/yeast.go, utils/base64id.go (instrumented)"], stubs=["none"],
    assume=["porcupine 'Unknown' (timeout) is counted as inconclusive, never reported", "listeners are distinct function literals (the emitter identifies functions by code pointer)"])
+
+WT_RULE = ("scenario i = GenWT(property, splitmix64(VERIF_SEED,i)): two webtransport.Conn values (roles, read/write buffer sizes, buffer pool drawn) joined by an "
+           "in-memory stream that fragments reads; C13/C14: 1-8 messages of both kinds with lengths on every boundary (0,125,126,127,65535,65536, 1x/2x write buffer +-2, random to 300 KiB) "
+           "through WriteMessage / NextWriter+Write / WriteString / ReadFrom / WritePreparedMessage with seeded chunkings; C14 also reference-encoded streams with non-minimal length forms; "
+           "C15: valid corpora truncated at offset (i mod len) and faulted at read offset (i mod len) - consecutive runs enumerate every offset - plus mutated, random and 64-bit-length streams, read limits, partial consumption")
+WT_REAL = ["webtransport/conn.go, webtransport/prepared.go (instrumented)", "webtransport-go Session (real, created by webtransport.Server.Upgrade over http3/quic interface fakes)"]
+WT_STUBS = ["the QUIC stream under the Conn (in-memory stream with fragmentation and fault injection)", "quic-go connection, HTTP/3 framing"]
+_p("C13", quick=40, thorough=900, rule=WT_RULE, quick_runs=24000, real=WT_REAL, stubs=WT_STUBS)
+_p("C14", quick=40, thorough=900, rule=WT_RULE, quick_runs=24000, real=WT_REAL, stubs=WT_STUBS,
+   assume=["the encoder half is a pure function of (kind, payload, path, buffer size): decided by observation at the simulated wire; the simulator adds the fragmentation dimension on the decoder side"])
+_p("C15", level="fault_enumeration", quick=40, thorough=900, rule=WT_RULE, quick_runs=32000, real=WT_REAL, stubs=WT_STUBS,
+   level_text=("fault_enumeration for the truncation/stream-error clause: for each generated valid corpus the stream is cut / faulted at offset (run index mod length), so a batch of "
+               "consecutive run indices covers every byte offset; the remaining clauses (arbitrary bytes, limits, partial consumption) are seeded exploration"),
+   assume=["the documented 1000-reads panic guard is never provoked (at most 10 reads after the first error)", "a 64-bit length with the top bit set must be rejected; any other length is legal"])
